@@ -233,3 +233,18 @@ MANIFEST_TEXT["C10"] = dict(engine="E-hist", design_ref="DESIGN.md §4 C10",
     technique="exhaustive exploration of iterator call trees (all interleavings of next/next_back/nth/nth_back up to a depth) on the real iterators against a deque reference",
     level_text="Every call sequence up to depth 6/8 on every iterator kind the library hands out, from every starting point, over all small parents; exact size after every call and None-forever after exhaustion.",
     level_note="Call sequences longer than the bound and parents larger than the scopes are not explored.")
+
+PROPS["C15"] = dict(
+    driver="c15", builds=["rel", "dbg"], level="exploration",
+    rule="E-input: every non-decreasing value list of <= K values over every universe <= U (incl. overfull lists with more values than elements); duplicates with multiplicities {1,2,5,17} at bucket boundaries 2^w*k-1 / 2^w*k / 0 / n-1 "
+         "for universes 64..2^20 (the low width the parameter rule picks); SparseVector::try_from_iter over EVERY sequence (sorted or not) of length <= L over 0..A. Checked: len, count_ones, is_multiset, select / select_iter at every rank and A(.), "
+         "get, rank, successor (first occurrence) and predecessor (last occurrence) as full iterators at every position and A(.), one_iter and the bit iterator forward, reversed and at every forward/backward split point; try_from_iter accepts exactly "
+         "the non-decreasing sequences, sizes the universe to last+1 and equals the multiset builder's vector. Zero-side queries are not checked (documented as not meaningful for multisets). Non-trivial = has duplicates or is a try_from_iter sequence.",
+    bounds={"quick": "U=6, K=7; L=5 over 0..6 (9 331 sequences)", "thorough": "U=8, K=9; L=6 over 0..7"},
+    require_counters={"quick": {"overfull_cases": 10, "cases_with_duplicates": 100}, "thorough": {"overfull_cases": 10, "cases_with_duplicates": 100}},
+    assumptions=[HOOK_ASSUMPTION, "reference = sorted Vec<usize> with linear scans"],
+)
+MANIFEST_TEXT["C15"] = dict(engine="E-input", design_ref="DESIGN.md §4 C15",
+    technique="bounded exhaustive input enumeration on the real code (all multisets over small universes, bucket-boundary duplicates, all short sequences for try_from_iter) against a sorted-list reference",
+    level_text="All multisets up to the stated size incl. overfull ones, duplicates at real bucket boundaries, and every sorted or unsorted sequence up to length 5/6 through try_from_iter; every present-value query and both iterators in both directions at every split.",
+    level_note="Larger multisets are not explored; rank_zero/select_zero/zero_iter are outside the property.")
